@@ -13,6 +13,10 @@ CHECKS = {
          "Every sequence up to length 6 (quick) / 7 (thorough) emitted by TLC is replayed on a real RoundRobinBackend, plus random sequences to length 400 and real goroutine races; "
          "every step of every execution is judged by TLC against the declarative properties Window/Balance/Member/EmptyDrop.",
     note=TB + "Backend doubles; under races only membership-at-dispatch, single delivery and drop-only-when-empty are claimed.", ref="5/C05"),
+ "C15": dict(cat="model_checking", tech="TLA+ Pins spec: TLC exhaustive over all pin/lookup/terminate/tick histories + TLC-sampled behaviours replayed in real time on the real DialogBasedBackend + interval-sound trace validation by TLC",
+    text="Pins.tla model-checked exhaustively (3 keys, 2 backends, Expires in {absent, >T, 2^31-1}, clock to 6 (quick) / 8 (thorough): Honoured, Forgotten, Terminated, Purged; the pinned re-arming rule is shown to violate Purged). "
+         "TLC-sampled histories and random histories over 1-200 dialogs are executed in real time on a real DialogBasedBackend; TLC judges each lookup and the set of remembered keys with the code's clock bracketed by two readings.",
+    note=TB + "time.Now() lies inside the bracket of each call; outcomes inside the ambiguity window are not judged; reads DialogBasedBackend fields in-package.", ref="5/C15"),
 }
 NA_REASON = "check not built yet (work in progress; see DESIGN.md section 9)"
 
